@@ -58,7 +58,7 @@ class C13(Check):
             spec['edges'] = [e for e in spec['edges'] if e[0].split('/')[0] in keep and e[1].split('/')[0] in keep]
             pool = 'P'
         else:
-            libs = ('lin', 'sat', 'osc', 'leak')
+            libs = ('lin', 'sat', 'osc', 'leak', 'linl')
             tab = stratum in ('S-opname', 'S-all') and rng.random() < 0.35
             if tab:
                 libs = ('tab', 'lin')   # operators carrying a large array constant (cache keys must see all of it)
